@@ -398,7 +398,8 @@ def plan_c11(ctx):
     vals_pool = [["num", 1], ["num", 2], ["list", [["num", 3]]], ["sym", "s:a"], ["var", 2], ["cmp", "Pair", [["num", 1], ["var", 2]]]]
 
     def body_of():
-        body = [rng.choice([["show", ["var", 1]], ["isnum", ["var", 1]]]) for _ in range(rng.randint(1, 2))]
+        body = [rng.choice([["show", ["var", 1]], ["isnum", ["var", 1]], ["isground", ["var", 1]], ["isground", ["var", 1]]])
+                for _ in range(rng.randint(1, 2))]
         if rng.random() < 0.5:
             body.append(["eq", ["var", 2], ["var", 1]])
         return body
@@ -406,6 +407,25 @@ def plan_c11(ctx):
     for i in range(T(ctx, 400, 8000)):
         k = rng.choice([1, 1, 2, 3, 4])
         vals = [rng.choice(vals_pool) for _ in range(k)]
+        if rng.random() < 0.5:
+            # values whose inner variables are bound separately (the projected value must be the
+            # FULLY walked term), also through variable-to-variable chains
+            chain = [["eq", ["var", 5], rng.choice([["num", 7], ["list", [["num", 8], ["var", 6]]]])],
+                     ["eq", ["var", 6], ["num", 9]], ["eq", ["var", 4], ["var", 5]]]
+            rng.shuffle(chain)
+            vals = [rng.choice([["list", [["num", 1], ["var", 4]]], ["cmp", "Pair", [["var", 5], ["list", [["var", 4]]]]],
+                                ["var", 4], ["ilist", [["var", 6], ["var", 4]]]]) for _ in range(k)]
+            cut = rng.randint(0, len(chain))
+            how = rng.choice(["conde", "each", "member"])
+            take = 1000
+            if how == "each":
+                body = chain[:cut] + [["conde", [[["eq", ["var", 1], v]] + chain[cut:] + [["project", [1], body_of()]] for v in vals]]]
+            elif how == "conde":
+                body = chain[:cut] + [["conde", [[["eq", ["var", 1], v]] for v in vals]]] + chain[cut:] + [["project", [1], body_of()]]
+            else:
+                body = chain[:cut] + [["call", "member", [["var", 1], ["list", vals]]]] + chain[cut:] + [["project", [1], body_of()]]
+            add(ctx, [query(ctx, "C11-w-%d" % i, 2, [["fresh", [4, 5, 6], body]], take=take, fuel=10)])
+            continue
         how = rng.choice(["member", "conde", "loop", "each"])
         take = 1000
         if how == "each":
